@@ -112,12 +112,17 @@ def run_serde_cases(chk, cases, broken):
     mism, translated = [], []
     try:
         if broken is None and chk.corr_buildable(["Corr/SerdeGen.vo"]):
-            both = common.run_cases("SerdeGen", cases, check="check_case_gen")
-            chk.coverage["cases_also_run_on_the_translated_source"] = len(cases)
+            # the translated code keeps the buffer as a Python-style list of bytes (each bit written costs a list update), which is
+            # some ten times slower to evaluate than the model: in the thorough tier the first 24000 cases go through both
+            cap = 24000
+            both = common.run_cases("SerdeGen", cases[:cap], check="check_case_gen")
+            chk.coverage["cases_also_run_on_the_translated_source"] = min(len(cases), cap)
             if both:
                 again = common.run_cases("Serde", [cases[i] for i in both])
                 mism = [both[j] for j in again]
                 translated = [i for i in both if i not in set(mism)]
+            if len(cases) > cap:
+                mism += [cap + i for i in common.run_cases("Serde", cases[cap:])]
         elif broken is None or chk.corr_buildable(["Corr/Serde.vo"]):
             mism = common.run_cases("Serde", cases)
     except common.CoqError as e:
